@@ -94,7 +94,10 @@ def run(argv):
         for name, pid, rc, info in ex.map(one, jobs):
             if rc == 0:
                 continue
-            if rc == 1:
+            expected = json.load(open(os.path.join(KEEP, name, "meta.json"))).get("expected_alarms", {})
+            if rc == 1 and pid in expected:
+                print(f"EXPECTED     {name:44s} {pid} {info}  (the change preserves its own property but breaks {pid}: {expected[pid][:120]})", flush=True)
+            elif rc == 1:
                 alarms += 1
                 print(f"ALARM        {name:44s} {pid} {info}", flush=True)
             else:
